@@ -207,6 +207,12 @@ def t3_reexport() -> Iterator[Dict[str, Any]]:
                    mod("client", 1, ops=flat(frm("pkg", "codec"), alias("e", "codec.encode"), alias("he", "codec.helper.encode"),
                                              frm("pkg._vendor", "codec", "vcodec"), alias("ve", "vcodec.helper.encode")))],
                   "T3", idiom="moved-module-with-relative-imports")
+    # the module that re-exports the class is itself re-exported by its package under another name
+    yield project([mod("p", pkg=True, ops=[frm("", "mod", "module", lvl=1)], all=["module"]),
+                   mod("mod", 1, ops=[frm("_impl", "X", lvl=1)], all=["X"]),
+                   mod("_impl", 1, ops=flat(cls("X", body=[fn("m")]))),
+                   mod("use", 1, ops=flat(frm("p._impl", "X"), cls("U", "X"), frm("p.mod", "X", "X2"), cls("V", "X2")))],
+                  "T3", idiom="reexporter-renamed-by-its-package")
     # origin lists the name in its own __all__: no move
     yield project([mod("p", pkg=True, ops=[frm("_impl", "X", lvl=1)], all=["X"]),
                    mod("_impl", 1, ops=flat(cls("X")), all=["X"]),
